@@ -8,7 +8,7 @@ use rosu_map::section::{
 };
 use serde_json::{json, Value};
 
-use super::curves::{layouts, mode_from, points_from_json, points_json, Family, MODES};
+use super::curves::{layouts, mode_from, points_from_json, points_json, same_points, same_pos, Family, MODES};
 use crate::engine::{finish, guarded, par_range, run_witnesses, Acc, Run, Summary, Tier, Violation};
 
 pub fn families(tier: Tier) -> Vec<Family> {
@@ -102,14 +102,14 @@ pub fn check_shape(mode: GameMode, pts: &[PathControlPoint], bufs: &mut CurveBuf
             );
         }
     }
-    let last_two_equal = np.len() >= 2 && np[np.len() - 1] == np[np.len() - 2];
+    let last_two_equal = np.len() >= 2 && same_pos(np[np.len() - 1], np[np.len() - 2]);
     // boundary rule: also cut exactly at vertices (all of them on short paths,
     // otherwise the first few and those of repeated vertices)
     let mut menu = len_menu(nd);
     let nl = nat.lengths();
     let mut extra = 0;
     for i in 1..np.len().min(nl.len()) {
-        let repeated = np[i] == np[i - 1] || (i + 1 < np.len() && np[i] == np[i + 1]);
+        let repeated = same_pos(np[i], np[i - 1]) || (i + 1 < np.len() && same_pos(np[i], np[i + 1]));
         if nl[i] > 0.0 && (np.len() <= 12 || i <= 3 || (repeated && extra < 8)) {
             menu.push(nl[i]);
             extra += 1;
@@ -124,7 +124,7 @@ pub fn check_shape(mode: GameMode, pts: &[PathControlPoint], bufs: &mut CurveBuf
             // narrow classifier of the recorded finding: osu-mode Catmull whose
             // simplified path starts with two equal points, cut inside the
             // seeded (surplus) first length
-            let degenerate_first = np.len() >= 2 && np[0] == np[1] && nat.lengths().get(1).is_some_and(|l1| l <= *l1);
+            let degenerate_first = np.len() >= 2 && same_pos(np[0], np[1]) && nat.lengths().get(1).is_some_and(|l1| l <= *l1);
             let class = if osu_catmull && degenerate_first {
                 "nan-endpoint-osu-catmull-degenerate-first-segment"
             } else {
@@ -156,7 +156,7 @@ pub fn check_shape(mode: GameMode, pts: &[PathControlPoint], bufs: &mut CurveBuf
         let adjusted = !exc && (nd - l).abs() >= f64::EPSILON;
         if adjusted && cp.len() >= 2 {
             let m = cp.len();
-            if m > np.len() || cp[..m - 1] != np[..m - 1] {
+            if m > np.len() || !same_points(&cp[..m - 1], &np[..m - 1]) {
                 viol("prefix", format!("adjusted path is not a prefix of the natural path: {cp:?} vs {np:?}"), Some(l), acc);
                 continue;
             }
